@@ -409,22 +409,28 @@ Definition pd_scaling_terms (H : sym3 T) (st zt s z : v3 T) : pd_terms :=
 Definition pd_branch (t : pd_terms) : bool :=
   (sqrt eps <? abs (pd_de1 t)) && (eps <? abs (pd_de2 t)) && (0 <? pd_dot_sz t) && (0 <? pd_dot_dsz t).
 
+(** the coefficient t = mu * ||W||_F of the third axis *)
+Definition pd_W (H : sym3 T) (st zt s z : v3 T) : sym3 T :=
+  let t := pd_scaling_terms H st zt s z in
+  let '(st0, st1, st2) := st in
+  let mut := pd_mut t in let de2 := pd_de2 t in
+  let '(h0, h1, h2) := sym3_mul H zt in
+  let t0 := mut * st0 - h0 in let t1 := mut * st1 - h1 in let t2 := mut * st2 - h2 in
+  S3 (m00 H - ((st0 * st0) / three + (t0 * t0) / de2))
+     (m01 H - ((st0 * st1) / three + (t0 * t1) / de2))
+     (m11 H - ((st1 * st1) / three + (t1 * t1) / de2))
+     (m02 H - ((st0 * st2) / three + (t0 * t2) / de2))
+     (m12 H - ((st1 * st2) / three + (t1 * t2) / de2))
+     (m22 H - ((st2 * st2) / three + (t2 * t2) / de2)).
+Definition pd_t (H : sym3 T) (st zt s z : v3 T) : T :=
+  pd_mu (pd_scaling_terms H st zt s z) * sym3_norm_fro (pd_W H st zt s z).
+
 (** the primal-dual scaling matrix (branch taken) *)
 Definition pd_scaling_matrix (H : sym3 T) (st zt s z : v3 T) : sym3 T :=
   let t := pd_scaling_terms H st zt s z in
   let '(s0, s1, s2) := s in
-  let '(st0, st1, st2) := st in
   let '(d0, d1, d2) := pd_ds t in
-  let mut := pd_mut t in let de2 := pd_de2 t in
-  let '(h0, h1, h2) := sym3_mul H zt in
-  let t0 := mut * st0 - h0 in let t1 := mut * st1 - h1 in let t2 := mut * st2 - h2 in
-  let W := S3 (m00 H - ((st0 * st0) / three + (t0 * t0) / de2))
-              (m01 H - ((st0 * st1) / three + (t0 * t1) / de2))
-              (m11 H - ((st1 * st1) / three + (t1 * t1) / de2))
-              (m02 H - ((st0 * st2) / three + (t0 * t2) / de2))
-              (m12 H - ((st1 * st2) / three + (t1 * t2) / de2))
-              (m22 H - ((st2 * st2) / three + (t2 * t2) / de2)) in
-  let tt := pd_mu t * sym3_norm_fro W in
+  let tt := pd_t H st zt s z in
   let '(a0, a1, a2) := normalize3 (cross3 z zt) in
   let dsz := pd_dot_sz t in let ddsz := pd_dot_dsz t in
   let e (si sj di dj ai aj : T) := ((si * sj) / dsz + (di * dj) / ddsz) + (tt * ai) * aj in
